@@ -41,6 +41,7 @@ package graph
 //@   monitor[C19,C06] sort_cache: cacheOK(g)
 //@   monitor[C06,C19] sort_order by(sort_order) each_return: sortOrderOK(g)
 //@   monitor[C05,C19] cycle_cache by(cycle_cache) each_return: cycleCacheSound(g)
+//@   monitor[C06,C19] no_stale_deps by(no_stale_deps) each_return: noStaleDeps(g)
 //@   ensures[C19] size: result == len(g.nodes)
 //@   ensures[C19] unchanged: g.nodes == old(g.nodes) && g.edges == old(g.edges) && wf(g)
 //
@@ -49,6 +50,7 @@ package graph
 //@   monitor[C19,C06] sort_cache: cacheOK(g)
 //@   monitor[C06,C19] sort_order by(sort_order) each_return: sortOrderOK(g)
 //@   monitor[C05,C19] cycle_cache by(cycle_cache) each_return: cycleCacheSound(g)
+//@   monitor[C06,C19] no_stale_deps by(no_stale_deps) each_return: noStaleDeps(g)
 //@   ensures[C19] member: result <==> (mk("NodeKey", serviceType, key, group) in g.nodes)
 //
 //@ func DependencyGraph.GetNode
@@ -56,6 +58,7 @@ package graph
 //@   monitor[C19,C06] sort_cache: cacheOK(g)
 //@   monitor[C06,C19] sort_order by(sort_order) each_return: sortOrderOK(g)
 //@   monitor[C05,C19] cycle_cache by(cycle_cache) each_return: cycleCacheSound(g)
+//@   monitor[C06,C19] no_stale_deps by(no_stale_deps) each_return: noStaleDeps(g)
 //@   ensures[C19] present: (mk("NodeKey", serviceType, key, group) in g.nodes) ==> result == g.nodes[mk("NodeKey", serviceType, key, group)] && result != nil
 //@   ensures[C19] absent: !(mk("NodeKey", serviceType, key, group) in g.nodes) ==> result == nil
 //
@@ -74,6 +77,7 @@ package graph
 //@   monitor[C19,C06] sort_cache: cacheOK(g)
 //@   monitor[C06,C19] sort_order by(sort_order) each_return: sortOrderOK(g)
 //@   monitor[C05,C19] cycle_cache by(cycle_cache) each_return: cycleCacheSound(g)
+//@   monitor[C06,C19] no_stale_deps: noStaleDeps(g)
 //@   requires deps_nonnil: forall i int :: 0 <= i && i < len(depsOf(provider)) ==> depsOf(provider)[i] != nil
 //@   ensures[C19] nil_rejected: provider == nil ==> result != nil && g.nodes == old(g.nodes) && g.edges == old(g.edges) && wf(g)
 //@   ensures[C19] accepted: provider != nil ==> result == nil
@@ -100,6 +104,7 @@ package graph
 //@        || (exists i int :: 0 <= i && i < idx && j == depKey(providerDeps[i])))
 //@     invariant s3: forall j NodeKey :: j in g.nodes ==> g.nodes[j] != nil && g.nodes[j].Key == j
 //@     invariant provider_set: node.Provider == provider
+//@     invariant no_stale_others: forall j NodeKey :: (j in g.nodes) && j != nodeKey && !(j in g.edges) ==> len(g.nodes[j].Dependencies) == 0
 //
 // occurs(x, s): x is an element of the sequence s
 //@ pred occurs(x NodeKey, s []NodeKey) = exists i int :: 0 <= i && i < len(s) && s[i] == x
@@ -112,7 +117,9 @@ package graph
 //@      0 <= m[c][j] && m[c][j] < len(g.edges[g.nodes[c].Dependents[j]]) && g.edges[g.nodes[c].Dependents[j]][m[c][j]] == c
 //@ pred matchInj(g *DependencyGraph, m fmap[NodeKey]fmap[int]int) = forall c NodeKey, j int, j2 int :: c in g.nodes && 0 <= j && j < j2 && j2 < len(g.nodes[c].Dependents)
 //@      && g.nodes[c].Dependents[j] == g.nodes[c].Dependents[j2] ==> m[c][j] < m[c][j2]
-//@ pred matched(g *DependencyGraph) = exists m fmap[NodeKey]fmap[int]int :: matchOK(g, m) && matchInj(g, m)
+// and no edge occurrence into a node is left out: occurrence i of edges[f] is entry mi[f][i] of the Dependents list of its target
+//@ pred matchSurj(g *DependencyGraph, m fmap[NodeKey]fmap[int]int, mi fmap[NodeKey]fmap[int]int) = forall f NodeKey, i int :: f in g.edges && f in g.nodes && 0 <= i && i < len(g.edges[f]) && (g.edges[f][i] in g.nodes) ==>
+//@      0 <= mi[f][i] && mi[f][i] < len(g.nodes[g.edges[f][i]].Dependents) && g.nodes[g.edges[f][i]].Dependents[mi[f][i]] == f && m[g.edges[f][i]][mi[f][i]] == i
 //@ func DependencyGraph.updateDegrees
 //@   requires maps: g != nil && g.nodes != nil && g.edges != nil
 //@   requires s3: s3(g)
@@ -121,15 +128,19 @@ package graph
 //@        && (0 <= i && i < len(g.edges[k]) ==> g.nodes[k].Dependencies[i] == g.edges[k][i])
 //@   ensures[C19,C06] outdegree: forall k NodeKey :: k in g.nodes ==> g.nodes[k].OutDegree == ite(k in g.edges, len(g.edges[k]), 0)
 //@   ensures[C19] deps_kept: forall k NodeKey :: k in g.nodes && !(k in g.edges) ==> g.nodes[k].Dependencies == old(g.nodes[k].Dependencies)
+//@   ensures[C19,C06] no_stale_deps_kept by(deps_same): old(noStaleDeps(g)) ==> noStaleDeps(g)
 //@   ensures[C19,C06] indegree: forall k NodeKey :: k in g.nodes ==> g.nodes[k].InDegree == len(g.nodes[k].Dependents)
-//@   ensures[C19,C06] dependents_sound: forall k NodeKey, i int :: k in g.nodes && 0 <= i && i < len(g.nodes[k].Dependents) ==>
+//@   ensures[C19,C06] dependents_sound by(dependents_sound, s3): forall k NodeKey, i int :: k in g.nodes && 0 <= i && i < len(g.nodes[k].Dependents) ==>
 //@        (g.nodes[k].Dependents[i] in g.edges) && (g.nodes[k].Dependents[i] in g.nodes) && occurs(k, g.edges[g.nodes[k].Dependents[i]])
-//@   ensures[C19,C06] dependents_complete: forall f NodeKey, i int :: f in g.edges && f in g.nodes && 0 <= i && i < len(g.edges[f]) && (g.edges[f][i] in g.nodes)
+//@   ensures[C19,C06] dependents_complete by(dependents_complete, s3): forall f NodeKey, i int :: f in g.edges && f in g.nodes && 0 <= i && i < len(g.edges[f]) && (g.edges[f][i] in g.nodes)
 //@        ==> occurs(f, g.nodes[g.edges[f][i]].Dependents)
 //@   ghost M fmap[NodeKey]fmap[int]int
-//@   exports M
+//@   exports M, MI
 //@   at after assign toNode.Dependents#1 : ghost M[to] := store(M[to], len(toNode.Dependents) - 1, idx)
 //@   ensures[C06,C19] dependents_matched_with_edge_occurrences: matchOK(g, M) && matchInj(g, M)
+//@   ghost MI fmap[NodeKey]fmap[int]int
+//@   at after assign toNode.Dependents#1 : ghost MI[from] := store(MI[from], idx, len(toNode.Dependents) - 1)
+//@   ensures[C06,C19] every_edge_occurrence_has_its_entry: matchSurj(g, M, MI)
 //@   loop 1
 //@     invariant reset: forall k NodeKey :: k in g.nodes && seen[k] ==> g.nodes[k].InDegree == 0 && g.nodes[k].OutDegree == 0 && len(g.nodes[k].Dependents) == 0
 //@     invariant deps_same: forall k NodeKey :: k in g.nodes ==> g.nodes[k].Dependencies == old(g.nodes[k].Dependencies)
@@ -145,9 +156,15 @@ package graph
 //@        ==> occurs(f, g.nodes[g.edges[f][i]].Dependents)
 //@     invariant match_ok: matchOK(g, M)
 //@     invariant match_inj: matchInj(g, M)
+//@     invariant match_onto by(match_onto, match_onto_cur, cur, s3): forall f NodeKey, i int :: f in g.edges && f in g.nodes && seen[f] && 0 <= i && i < len(g.edges[f]) && (g.edges[f][i] in g.nodes) ==>
+//@        0 <= MI[f][i] && MI[f][i] < len(g.nodes[g.edges[f][i]].Dependents) && g.nodes[g.edges[f][i]].Dependents[MI[f][i]] == f && M[g.edges[f][i]][MI[f][i]] == i
 //@   loop 3
 //@     invariant match_ok: matchOK(g, M)
 //@     invariant match_inj: matchInj(g, M)
+//@     invariant match_onto by(match_onto, cur, s3): forall f NodeKey, i int :: f in g.edges && f in g.nodes && seen[f] && 0 <= i && i < len(g.edges[f]) && (g.edges[f][i] in g.nodes) ==>
+//@        0 <= MI[f][i] && MI[f][i] < len(g.nodes[g.edges[f][i]].Dependents) && g.nodes[g.edges[f][i]].Dependents[MI[f][i]] == f && M[g.edges[f][i]][MI[f][i]] == i
+//@     invariant match_onto_cur by(match_onto_cur, cur, s3): forall i int :: 0 <= i && i < idx && (tos[i] in g.nodes) ==>
+//@        0 <= MI[from][i] && MI[from][i] < len(g.nodes[tos[i]].Dependents) && g.nodes[tos[i]].Dependents[MI[from][i]] == from && M[tos[i]][MI[from][i]] == i
 //@     invariant match_cur_below: forall c NodeKey, j int :: c in g.nodes && 0 <= j && j < len(g.nodes[c].Dependents) && g.nodes[c].Dependents[j] == from ==> M[c][j] < idx
 //@     invariant deps_done: forall k NodeKey, i int :: k in g.edges && k in g.nodes && (seen[k] || k == from) ==> len(g.nodes[k].Dependencies) == len(g.edges[k])
 //@        && (0 <= i && i < len(g.edges[k]) ==> g.nodes[k].Dependencies[i] == g.edges[k][i])
@@ -170,6 +187,7 @@ package graph
 //@   monitor[C19,C06] sort_cache: cacheOK(g)
 //@   monitor[C06,C19] sort_order by(sort_order) each_return: sortOrderOK(g)
 //@   monitor[C05,C19] cycle_cache by(cycle_cache) each_return: cycleCacheSound(g)
+//@   monitor[C06,C19] no_stale_deps: noStaleDeps(g)
 //@   let tgt = mk("NodeKey", serviceType, key, group)
 //@   ensures[C19] absent_noop: !old(tgt in g.nodes) ==> g.nodes == old(g.nodes) && g.edges == old(g.edges)
 //@        && (forall j NodeKey :: ((j in g.nodes) <==> old(j in g.nodes)) && ((j in g.edges) <==> old(j in g.edges)) && g.edges[j] == old(g.edges[j]))
@@ -186,6 +204,7 @@ package graph
 //@     invariant done: forall j NodeKey :: j in g.edges && seen[j] ==> filteredOf(g.edges[j], old(g.edges[j]), tgt)
 //@     invariant todo: forall j NodeKey :: j in g.edges && !seen[j] ==> g.edges[j] == old(g.edges[j])
 //@     invariant s3: s3(g)
+//@     invariant no_stale_deps: noStaleDeps(g)
 //@   loop 2
 //@     invariant maps: g.nodes == old(g.nodes) && g.edges == old(g.edges) && nodeKey == tgt && !isnil(filtered)
 //@     invariant sound: forall i int :: 0 <= i && i < len(filtered) ==> filtered[i] != tgt && (exists j int :: 0 <= j && j < idx && edges[j] == filtered[i])
@@ -194,10 +213,13 @@ package graph
 //@   loop 4
 //@     invariant maps: g.nodes == old(g.nodes) && g.edges == old(g.edges) && g.cycleCache == old(g.cycleCache)
 //@     invariant s3: s3(g)
+//@     invariant no_stale_deps: noStaleDeps(g)
 //@   at after loop 2 : assert filt: filteredOf(filtered, edges, tgt)
 //@   at after loop 2 : assert unmodified: !modified ==> (forall i int :: 0 <= i && i < len(edges) ==> edges[i] != tgt)
 //@   at loop 1 end : assert cur_done: filteredOf(g.edges[k], old(g.edges[k]), tgt)
 //
+// a node without an edge list has no leftover dependency list either (the Kahn counts are taken from the per-node lists)
+//@ pred noStaleDeps(g *DependencyGraph) = forall k NodeKey :: k in g.nodes && !(k in g.edges) ==> len(g.nodes[k].Dependencies) == 0
 // mirror(g): the per-node Dependencies field is the edge list (derived state in step with E)
 //@ pred mirror(g *DependencyGraph) = forall k NodeKey, i int :: k in g.nodes ==>
 //@      ((k in g.edges) ==> len(g.nodes[k].Dependencies) == len(g.edges[k]) && (0 <= i && i < len(g.edges[k]) ==> g.nodes[k].Dependencies[i] == g.edges[k][i]))
@@ -208,6 +230,7 @@ package graph
 //@   monitor[C19,C06] sort_cache: cacheOK(g)
 //@   monitor[C06,C19] sort_order by(sort_order) each_return: sortOrderOK(g)
 //@   monitor[C05,C19] cycle_cache by(cycle_cache) each_return: cycleCacheSound(g)
+//@   monitor[C06,C19] no_stale_deps by(no_stale_deps) each_return: noStaleDeps(g)
 //@   requires mirror: mirror(g)
 //@   let q = mk("NodeKey", serviceType, key, group)
 //@   ensures[C19] absent: !(q in g.nodes) ==> isnil(result)
@@ -219,6 +242,7 @@ package graph
 //@   monitor[C19,C06] sort_cache: cacheOK(g)
 //@   monitor[C06,C19] sort_order by(sort_order) each_return: sortOrderOK(g)
 //@   monitor[C05,C19] cycle_cache by(cycle_cache) each_return: cycleCacheSound(g)
+//@   monitor[C06,C19] no_stale_deps by(no_stale_deps) each_return: noStaleDeps(g)
 //@   let q = mk("NodeKey", serviceType, key, group)
 //@   ensures[C19] absent: !(q in g.nodes) ==> isnil(result)
 //@   ensures[C19] present: (q in g.nodes) ==> !isnil(result) && len(result) == len(g.nodes[q].Dependents)
@@ -262,7 +286,9 @@ package graph
 //
 // r strictly decreases along every edge of g: the certificate that g has no directed cycle
 //@ pred ranked(g *DependencyGraph, r fmap[NodeKey]int) = forall u NodeKey, x int :: 0 <= x && x < len(g.edges[u]) ==> r[g.edges[u][x]] < r[u]
-//@ pred acyclic(g *DependencyGraph) = exists r fmap[NodeKey]int :: ranked(g, r)
+// (ranks are natural numbers: a strictly decreasing labelling by naturals is what excludes infinite walks, see stuck_set_excludes_every_ranking)
+//@ pred rankedNat(g *DependencyGraph, r fmap[NodeKey]int) = ranked(g, r) && (forall u NodeKey :: r[u] >= 0)
+//@ pred acyclic(g *DependencyGraph) = exists r fmap[NodeKey]int :: rankedNat(g, r)
 //@ pred onCycle(g *DependencyGraph, k NodeKey) = exists p []NodeKey :: isCycle(g, p) && p[0] == k
 // a cycle cache marked clean is right: a node cached as cyclic lies on a cycle; no node cached as cyclic means no cycle at all
 //@ pred cycleCacheSound(g *DependencyGraph) = !g.cycleCacheDirty ==>
@@ -371,6 +397,7 @@ package graph
 //@   monitor[C19,C06] sort_cache: cacheOK(g)
 //@   monitor[C06,C19] sort_order by(sort_order) each_return: sortOrderOK(g)
 //@   monitor[C05,C19] cycle_cache by(cache_sound_after_cached_answer, cache_sound_kept, cache_sound_on_new_cycle, cache_sound_after_full_search): cycleCacheSound(g)
+//@   monitor[C06,C19] no_stale_deps by(no_stale_deps, no_stale_deps_kept, maps) each_return: noStaleDeps(g)
 //@   modifies map[NodeKey]bool, CircularDependencyError.Node, CircularDependencyError.Path, alloc, Node.InDegree, Node.OutDegree, Node.Dependents, Node.Dependencies, Node.Visited, Node.Visiting, DependencyGraph.cycleCache, DependencyGraph.cycleCacheDirty
 //@   safety[C15,C05]
 //@   ghost W set[NodeKey]
@@ -383,20 +410,18 @@ package graph
 //@   ensures[C05,C19] nil_means_acyclic by(acyclic_after_full_search, acyclic_by_clean_cache, cached_cycle_found_again): result == nil ==> acyclic(g)
 //@   ensures[C05,C19] cache_clean: !g.cycleCacheDirty
 //@   ensures[C06,C19] degrees_fresh: dependentsOK(g)
-//@   ensures[C06,C19] degrees_matched by(degrees_matched_after_refresh): matched(g)
 //@   ensures[C06,C19] deps_mirror_edges: depsMirrorEdges(g)
-//@   at after call g.updateDegrees#1 : exhibit[C06] degrees_matched_after_refresh by(dependents_matched_with_edge_occurrences): m := ghostof("updateDegrees", "M") :: matched(g)
 //@   ensures[C06,C19] sort_cache_untouched: g.sortedNodesDirty == old(g.sortedNodesDirty) && g.sortedNodes == old(g.sortedNodes)
 //@   ensures[C06,C19] providers_kept: forall k NodeKey :: (k in g.nodes) ==> g.nodes[k] == old(g.nodes[k]) && g.nodes[k].Provider == old(g.nodes[k].Provider)
 // cached answer "cyclic": the node cached as cyclic lies on a cycle, so the repeated search from it cannot come back empty
 //@   at before return#1 : obtain[C05] cyc []NodeKey by(cycle_cache, maps, cache_untouched) :: isCycle(g, cyc) && cyc[0] == key
 //@   at after call detectCyclesFrom#1 : use no_cycle_through_ranked_set(g, ghostof("detectCyclesFrom", "V"), ghostof("detectCyclesFrom", "fin"), cyc) when result == nil
 // full search: the certificates of the searches done so far are glued into one ranking of everything seen
-//@   at after call detectCyclesFrom#2 : ghost R := mapof u NodeKey :: ite(W[u], R[u], ghostof("detectCyclesFrom", "fin")[u] + B)
+//@   at after call detectCyclesFrom#2 : ghost R := mapof u NodeKey :: ite(W[u], R[u], ite(ghostof("detectCyclesFrom", "V")[u], ghostof("detectCyclesFrom", "fin")[u] + B, 0))
 //@   at after call detectCyclesFrom#2 : ghost W := mapof u NodeKey :: W[u] || ghostof("detectCyclesFrom", "V")[u]
 //@   at after call detectCyclesFrom#2 : ghost B := B + ghostof("detectCyclesFrom", "ftime")
 //@   at before return#4 : assert[C05] everything_ranked: ranked(g, R)
-//@   at before return#4 : exhibit[C05] acyclic_after_full_search by(everything_ranked): r := R :: acyclic(g)
+//@   at before return#4 : exhibit[C05] acyclic_after_full_search by(everything_ranked, ranks_natural): r := R :: acyclic(g)
 //@   at before return#2 : assert[C05] acyclic_by_clean_cache by(cycle_cache, none_cached_so_far, cache_untouched): acyclic(g)
 //@   at after call detectCyclesFrom#1 : assert[C05] cached_cycle_found_again: result != nil
 //@   at after call detectCyclesFrom#1 : exhibit[C05] cached_again_node_on_cycle by(reported_path_is_a_cycle): p := as(result, "*CircularDependencyError").Path :: onCycle(g, as(result, "*CircularDependencyError").Node)
@@ -419,12 +444,14 @@ package graph
 //@     invariant ranking: closedRanked(g, W, R)
 //@     invariant ranks_bounded: B >= 0 && (forall u NodeKey :: W[u] ==> 0 <= R[u] && R[u] < B)
 //@     invariant nothing_cached_as_cyclic: forall k NodeKey :: !g.cycleCache[k]
+//@     invariant ranks_natural: forall u NodeKey :: R[u] >= 0
 //
 //@ func DependencyGraph.IsAcyclic
 //@   monitor[C19,C05,C06] wf: wf(g)
 //@   monitor[C19,C06] sort_cache: cacheOK(g)
 //@   monitor[C06,C19] sort_order by(sort_order) each_return: sortOrderOK(g)
 //@   monitor[C05,C19] cycle_cache by(cycle_cache) each_return: cycleCacheSound(g)
+//@   monitor[C06,C19] no_stale_deps by(no_stale_deps) each_return: noStaleDeps(g)
 //@   modifies map[NodeKey]bool, CircularDependencyError.Node, CircularDependencyError.Path, alloc, Node.InDegree, Node.OutDegree, Node.Dependents, Node.Dependencies, Node.Visited, Node.Visiting, DependencyGraph.cycleCache, DependencyGraph.cycleCacheDirty
 //@   ensures[C05,C19] graph_unchanged: g.nodes == old(g.nodes) && g.edges == old(g.edges) && wf(g)
 //@   ensures[C05,C19] true_means_acyclic by(nil_means_acyclic): result ==> acyclic(g)
@@ -435,6 +462,14 @@ package graph
 //@   monitor[C19,C06] sort_cache: cacheOK(g)
 //@   monitor[C06,C19] sort_order by(sort_order) each_return: sortOrderOK(g)
 //@   monitor[C05,C19] cycle_cache by(cycle_cache) each_return: cycleCacheSound(g)
+//@   monitor[C06,C19] no_stale_deps by(no_stale_deps, no_stale_deps_kept, no_stale_before_refresh, no_stale_before_undo_refresh) each_return: noStaleDeps(g)
+//@   at before call g.updateDegrees#1 : assert[C06,C19] no_stale_before_refresh: noStaleDeps(g)
+//@   at after assign node.Dependencies#2 : assert[C06,C19] restored_list_has_no_leftovers by(no_stale_deps): !hadEdges ==> len(node.Dependencies) == 0
+//@   at after assign node.Dependencies#2 : assert[C06,C19] others_still_clean by(no_stale_others, maps): forall j NodeKey :: (j in g.nodes) && j != nodeKey && !(j in g.edges) ==> len(g.nodes[j].Dependencies) == 0
+//@   at before call g.updateDegrees#2 : assert[C06,C19] undo_of_a_new_node by(no_stale_others, maps, self_kept): !old(nodeKey in g.nodes) ==> noStaleDeps(g)
+//@   at before call g.updateDegrees#2 : assert[C06,C19] undo_of_a_replacement_with_edges by(others_still_clean, maps, self_kept): old(nodeKey in g.nodes) && hadEdges ==> noStaleDeps(g)
+//@   at before call g.updateDegrees#2 : assert[C06,C19] undo_of_a_replacement_without_edges by(restored_list_has_no_leftovers, others_still_clean, maps, self_kept): old(nodeKey in g.nodes) && !hadEdges ==> noStaleDeps(g)
+//@   at before call g.updateDegrees#2 : assert[C06,C19] no_stale_before_undo_refresh by(undo_of_a_new_node, undo_of_a_replacement_with_edges, undo_of_a_replacement_without_edges): noStaleDeps(g)
 //@   requires deps_nonnil: forall i int :: 0 <= i && i < len(depsOf(provider)) ==> depsOf(provider)[i] != nil
 //@   safety[C15,C19]
 //@   ensures[C19] nil_rejected: provider == nil ==> result != nil && g.nodes == old(g.nodes) && g.edges == old(g.edges) && wf(g)
@@ -465,11 +500,13 @@ package graph
 //@     invariant placeholders_new: forall i int :: 0 <= i && i < len(placeholders) ==> !old(placeholders[i] in g.nodes) && placeholders[i] != nodeKey && (placeholders[i] in g.nodes)
 //@     invariant only_placeholders_added: forall j NodeKey :: j in g.nodes ==> (old(j in g.nodes) || j == nodeKey || occurs(j, placeholders))
 //@     invariant old_deps_kept: forall j NodeKey :: old(j in g.nodes) && j != nodeKey ==> g.nodes[j] == old(g.nodes[j]) && g.nodes[j].Dependencies == old(g.nodes[j].Dependencies)
+//@     invariant no_stale_others: forall j NodeKey :: (j in g.nodes) && j != nodeKey && !(j in g.edges) ==> len(g.nodes[j].Dependencies) == 0
 //@   loop 2
 //@     invariant maps: g.nodes == old(g.nodes) && g.edges == old(g.edges) && g.nodes != nil && s3(g)
 //@     invariant old_kept: forall j NodeKey :: old(j in g.nodes) ==> (j in g.nodes)
-//@     invariant self_kept: nodeKey in g.nodes
+//@     invariant self_kept: (nodeKey in g.nodes) && g.nodes[nodeKey] == node
 //@     invariant rest_are_pending: forall j NodeKey :: j in g.nodes ==> (old(j in g.nodes) || j == nodeKey || (exists i int :: idx <= i && i < len(placeholders) && placeholders[i] == j))
+//@     invariant no_stale_others: forall j NodeKey :: (j in g.nodes) && j != nodeKey && !(j in g.edges) ==> len(g.nodes[j].Dependencies) == 0
 //
 //@ pred occursN(p *Node, s []*Node) = exists i int :: 0 <= i && i < len(s) && s[i] == p
 //
@@ -478,6 +515,7 @@ package graph
 //@   monitor[C19,C06] sort_cache: cacheOK(g)
 //@   monitor[C06,C19] sort_order by(sort_order) each_return: sortOrderOK(g)
 //@   monitor[C05,C19] cycle_cache by(cycle_cache) each_return: cycleCacheSound(g)
+//@   monitor[C06,C19] no_stale_deps by(no_stale_deps) each_return: noStaleDeps(g)
 //@   ensures[C19] sound: forall i int :: 0 <= i && i < len(result) ==> result[i] != nil && result[i].InDegree == 0 && (result[i].Key in g.nodes) && g.nodes[result[i].Key] == result[i]
 //@   ensures[C19] complete: forall k NodeKey :: k in g.nodes && g.nodes[k].InDegree == 0 ==> occursN(g.nodes[k], result)
 //@   ensures[C19] unchanged: g.nodes == old(g.nodes) && g.edges == old(g.edges) && wf(g)
@@ -490,6 +528,7 @@ package graph
 //@   monitor[C19,C06] sort_cache: cacheOK(g)
 //@   monitor[C06,C19] sort_order by(sort_order) each_return: sortOrderOK(g)
 //@   monitor[C05,C19] cycle_cache by(cycle_cache) each_return: cycleCacheSound(g)
+//@   monitor[C06,C19] no_stale_deps by(no_stale_deps) each_return: noStaleDeps(g)
 //@   ensures[C19] sound: forall i int :: 0 <= i && i < len(result) ==> result[i] != nil && result[i].OutDegree == 0 && (result[i].Key in g.nodes) && g.nodes[result[i].Key] == result[i]
 //@   ensures[C19] complete: forall k NodeKey :: k in g.nodes && g.nodes[k].OutDegree == 0 ==> occursN(g.nodes[k], result)
 //@   ensures[C19] unchanged: g.nodes == old(g.nodes) && g.edges == old(g.edges) && wf(g)
@@ -535,16 +574,56 @@ package graph
 //@ pred sortedByEdges(g *DependencyGraph, res []*Node) = exists rk fmap[NodeKey]int :: rankedList(g, res, rk)
 // a topological order marked clean is one
 //@ pred sortOrderOK(g *DependencyGraph) = (!g.sortedNodesDirty && !isnil(g.sortedNodes)) ==> sortedByEdges(g, g.sortedNodes)
+// ---- completeness of Kahn's algorithm: it gives up only on graphs that have no ranking ------------------------------
+// every node whose dependency count reached zero was queued; whatever was queued is still waiting or has been placed
+//@ pred kahnZeroQueued(g *DependencyGraph, depCounts map[NodeKey]int, enq set[NodeKey]) = forall k NodeKey :: k in g.nodes && depCounts[k] == 0 ==> enq[k]
+// (qi[k] = how many keys were queued before k, QL = how many were queued in all, h = how many were taken out again: the queue is the part [h, QL) of that history)
+//@ pred kahnQueuedHeld(queue []NodeKey, enq set[NodeKey], placed set[NodeKey], qi fmap[NodeKey]int, QL int, h int) = len(queue) == QL - h && h >= 0
+//@   && (forall k NodeKey :: enq[k] ==> 0 <= qi[k] && qi[k] < QL && (qi[k] >= h ==> queue[qi[k] - h] == k) && (qi[k] < h ==> placed[k]))
+// every Dependents entry of a placed node has discharged the occurrence it stands for (for the node being placed: the entries below lim)
+//@ pred kahnAllDischarged(g *DependencyGraph, P fmap[NodeKey]fmap[int]bool, m fmap[NodeKey]fmap[int]int, placed set[NodeKey], cur NodeKey, lim int) =
+//@      forall c NodeKey, j int :: placed[c] && 0 <= j && j < len(g.nodes[c].Dependents) && (c != cur || j < lim) ==> P[g.nodes[c].Dependents[j]][m[c][j]]
+// Z is a set of nodes without a sink: every member has an edge to a member. A non-empty such set is the certificate that g has no ranking
+//@ pred stuck(g *DependencyGraph, Z set[NodeKey]) = forall u NodeKey :: Z[u] ==> (exists x int :: 0 <= x && x < len(g.edges[u]) && Z[g.edges[u][x]])
+//@ pred cyclicCert(g *DependencyGraph) = exists Z set[NodeKey] :: stuck(g, Z) && (exists z NodeKey :: Z[z])
+//
+// a positive prefix count of undischarged occurrences means there is an undischarged occurrence
+//@ lemma[C06,C19] positive_count_has_undischarged_occurrence
+//@   vars g *DependencyGraph, S fmap[NodeKey]fmap[int]int, P fmap[NodeKey]fmap[int]bool, b int
+//@   induct b
+//@   requires prefix: kahnPrefix(g, S, P)
+//@   ensures witness: forall k NodeKey :: k in g.nodes && b <= len(g.nodes[k].Dependencies) && S[k][b] > 0 ==> (exists t int :: 0 <= t && t < b && !P[k][t])
+// in a set without a sink every natural-valued ranking is at least n everywhere on the set, for every n
+//@ lemma[C06,C19,C05] ranks_in_stuck_set_exceed_every_bound
+//@   vars g *DependencyGraph, Z set[NodeKey], r fmap[NodeKey]int, n int
+//@   induct n
+//@   requires no_sink: stuck(g, Z)
+//@   requires ranking: rankedNat(g, r)
+//@   ensures bound: forall u NodeKey :: Z[u] ==> r[u] >= n
+// hence a non-empty set without a sink excludes every ranking: the graph is not acyclic
+//@ lemma[C06,C19,C05] stuck_set_excludes_every_ranking
+//@   vars g *DependencyGraph, Z set[NodeKey], r fmap[NodeKey]int, z NodeKey
+//@   requires no_sink: stuck(g, Z)
+//@   requires member: Z[z]
+//@   requires ranking: rankedNat(g, r)
+//@   use ranks_in_stuck_set_exceed_every_bound(g, Z, r, r[z] + 1)
+//@   ensures impossible: false
+// |dom(nodes)| is the number of keys: a duplicate-free list of nodes that is shorter or longer than the map misses a key
+//@ lemma[C06,C19] list_of_other_length_misses_a_node
+//@   vars g *DependencyGraph, res []*Node, pos fmap[NodeKey]int
+//@   assumed finite cardinality is outside the map model of the generator (len(map) is a counter updated by insert and delete, not tied to the key set): a list that enumerates the key set without repetition has as many entries as the map has keys
+//@   requires listed_are_distinct_nodes: forall p int :: 0 <= p && p < len(res) ==> res[p] != nil && (res[p].Key in g.nodes) && pos[res[p].Key] == p
+//@   ensures some_node_not_listed: len(res) != len(g.nodes) ==> (exists k NodeKey :: (k in g.nodes) && !(0 <= pos[k] && pos[k] < len(res) && res[pos[k]] != nil && res[pos[k]].Key == k))
+//
 //@ func DependencyGraph.TopologicalSort
 //@   monitor[C19,C05,C06] wf: wf(g)
 //@   monitor[C19,C06] sort_cache: cacheOK(g)
 //@   monitor[C06,C19] sort_order by(sort_order, fresh_result_is_sorted) each_return: sortOrderOK(g)
 //@   monitor[C05,C19] cycle_cache by(cycle_cache) each_return: cycleCacheSound(g)
-//@   modifies DependencyGraph.sortedNodes, DependencyGraph.sortedNodesDirty, alloc
+//@   monitor[C06,C19] no_stale_deps by(no_stale_deps, no_stale_deps_kept) each_return: noStaleDeps(g)
+//@   modifies DependencyGraph.sortedNodes, DependencyGraph.sortedNodesDirty, alloc, Node.InDegree, Node.OutDegree, Node.Dependents, Node.Dependencies
 //@   safety[C15,C06]
-//@   requires degrees_fresh: dependentsOK(g)
-//@   requires degrees_matched: matched(g)
-//@   requires deps_mirror_edges: depsMirrorEdges(g)
+// (no precondition on the history of the graph: whatever adds, deferred adds, replacements and removals came before, see C19)
 //@   ghost ID fmap[int]int = mapof t int :: t
 //@   ghost S fmap[NodeKey]fmap[int]int = mapof k NodeKey :: ID
 //@   ghost P fmap[NodeKey]fmap[int]bool
@@ -552,13 +631,28 @@ package graph
 //@   ghost pos fmap[NodeKey]int
 //@   ghost placed set[NodeKey]
 //@   ghost enq set[NodeKey]
-//@   at entry : obtain[C06] m fmap[NodeKey]fmap[int]int by(degrees_matched) :: matchOK(g, m) && matchInj(g, m)
+// the order is computed from lists recomputed here: m and mi are the matchings updateDegrees has just established
+//@   ghost m fmap[NodeKey]fmap[int]int
+//@   ghost mi fmap[NodeKey]fmap[int]int
+//@   at after call g.updateDegrees#1 : ghost m := ghostof("updateDegrees", "M")
+//@   at after call g.updateDegrees#1 : ghost mi := ghostof("updateDegrees", "MI")
+//@   at after call g.updateDegrees#1 : assert[C06] lists_recomputed by(dependents_sound, dependents_complete, deps_mirror_edges, dependents_matched_with_edge_occurrences, every_edge_occurrence_has_its_entry):
+//@        dependentsOK(g) && depsMirrorEdges(g) && matchOK(g, m) && matchInj(g, m) && matchSurj(g, m, mi)
+//@   ghost U set[NodeKey]
+//@   ghost qi fmap[NodeKey]int
+//@   ghost QL int
+//@   ghost h int
+//@   at after assign queue#2 : ghost qi[key] := QL
+//@   at after assign queue#2 : ghost QL := QL + 1
+//@   at after assign queue#3 : ghost h := h + 1
+//@   at after assign queue#4 : ghost qi[dependent] := QL
+//@   at after assign queue#4 : ghost QL := QL + 1
 //@   at after assign queue#2 : ghost enq[key] := true
 //@   at after assign result#3 : ghost placed[current] := true
 //@   at after assign result#3 : ghost pos[current] := len(result) - 1
-//@   at before assign depCounts[dependent]#1 : assert[C06] entry_stands_for_an_occurrence by(m_exists, degrees_fresh, deps_mirror_edges, cur, wf): (dependent in g.nodes) && 0 <= m[current][idx]
+//@   at before assign depCounts[dependent]#1 : assert[C06] entry_stands_for_an_occurrence by(lists_recomputed, cur, wf): (dependent in g.nodes) && 0 <= m[current][idx]
 //@        && m[current][idx] < len(g.nodes[dependent].Dependencies) && g.nodes[dependent].Dependencies[m[current][idx]] == current
-//@   at before assign depCounts[dependent]#1 : assert[C06] occurrence_not_yet_discharged by(entry_stands_for_an_occurrence, discharged, discharged_for_current, m_exists, cur): !P[dependent][m[current][idx]]
+//@   at before assign depCounts[dependent]#1 : assert[C06] occurrence_not_yet_discharged by(entry_stands_for_an_occurrence, discharged, discharged_for_current, lists_recomputed, cur): !P[dependent][m[current][idx]]
 //@   at before assign depCounts[dependent]#1 : assert[C06] count_still_positive by(counts, prefix, mono, entry_stands_for_an_occurrence, occurrence_not_yet_discharged): depCounts[dependent] >= 1
 //@   at before assign depCounts[dependent]#1 : assert[C06] dependent_not_yet_queued by(count_still_positive, queued): !enq[dependent] && !placed[dependent]
 //@   at after assign depCounts[dependent]#1 : ghost S[dependent] := mapof t int :: S[dependent][t] - ite(t > m[current][idx], 1, 0)
@@ -571,11 +665,25 @@ package graph
 //@   ensures[C06,C19] only_nodes_listed: forall i int :: 0 <= i && i < len(result0) ==> result0[i] != nil && (result0[i].Key in g.nodes) && g.nodes[result0[i].Key] == result0[i]
 //@   ensures[C06,C19] every_node_counted: result1 == nil ==> len(result0) == len(g.nodes)
 //@   ensures[C06,C19] dependencies_first_each_node_once by(returned_fresh_order_is_sorted, returned_cached_order_is_sorted) each_return: result1 == nil ==> sortedByEdges(g, result0)
+//@   ensures[C06,C19] gives_up_only_without_ranking by(stuck_set_found) each_return: result1 != nil ==> cyclicCert(g)
+//@   at before return#2 : assert[C06] queue_drained by(queued_held): forall k NodeKey :: enq[k] ==> placed[k]
+//@   at before return#2 : use list_of_other_length_misses_a_node(g, result, pos)
+//@   at before return#2 : obtain[C06] u0 NodeKey by(list_of_other_length_misses_a_node, placed_nodes, wf) :: (u0 in g.nodes) && !placed[u0]
+//@   at before return#2 : ghost U := mapof k NodeKey :: (k in g.nodes) && !placed[k]
+//@   at before return#2 : use positive_count_has_undischarged_occurrence(g, S, P, any)
+//@   at before return#2 : assert[C06] unplaced_has_positive_count by(queue_drained, zero_queued, counts, mono, wf): forall k NodeKey :: (k in g.nodes) && !placed[k] ==> S[k][len(g.nodes[k].Dependencies)] > 0
+//@   at before return#2 : assert[C06] unplaced_has_undischarged_occurrence by(unplaced_has_positive_count, positive_count_has_undischarged_occurrence, wf): forall k NodeKey :: (k in g.nodes) && !placed[k] ==>
+//@        (exists t int :: 0 <= t && t < len(g.nodes[k].Dependencies) && !P[k][t])
+//@   at before return#2 : assert[C06] undischarged_occurrence_points_at_unplaced by(all_discharged, lists_recomputed, no_stale_deps, no_stale_deps_kept, wf): forall k NodeKey, t int :: (k in g.nodes) && 0 <= t && t < len(g.nodes[k].Dependencies) && !P[k][t] ==>
+//@        (k in g.edges) && t < len(g.edges[k]) && (g.edges[k][t] in g.nodes) && !placed[g.edges[k][t]]
+//@   at before return#2 : assert[C06] unplaced_nodes_have_no_sink by(unplaced_has_undischarged_occurrence, undischarged_occurrence_points_at_unplaced, U_def): stuck(g, U)
+//@   at before return#2 : exhibit[C06] stuck_set_reported by(unplaced_nodes_have_no_sink, u0_exists, U_def): Z := U :: cyclicCert(g)
+//@   at after return#2 : exhibit[C06] stuck_set_found by(stuck_set_reported): Z := U :: cyclicCert(g)
 //@   at after return#1 : exhibit[C06] returned_cached_order_is_sorted by(cached_order_is_sorted): rk := rk0 :: sortedByEdges(g, result0)
 //@   at after return#3 : exhibit[C06] returned_fresh_order_is_sorted by(fresh_order_is_sorted): rk := pos :: sortedByEdges(g, result0)
 //@   at before return#1 : obtain[C06] rk0 fmap[NodeKey]int by(sort_order) :: rankedList(g, g.sortedNodes, rk0)
 //@   at before return#1 : exhibit[C06] cached_order_is_sorted by(rk0_exists): rk := rk0 :: sortedByEdges(g, result)
-//@   at before return#3 : assert[C06] placed_before by(ordered, placed_nodes, deps_mirror_edges, wf): forall p int, x int :: 0 <= p && p < len(result) && 0 <= x && x < len(g.edges[result[p].Key]) ==>
+//@   at before return#3 : assert[C06] placed_before by(ordered, placed_nodes, lists_recomputed, wf): forall p int, x int :: 0 <= p && p < len(result) && 0 <= x && x < len(g.edges[result[p].Key]) ==>
 //@        placed[g.edges[result[p].Key][x]] && pos[g.edges[result[p].Key][x]] < p
 //@   at before return#3 : exhibit[C06] fresh_result_is_sorted by(placed_before, placed_nodes, wf): rk := pos :: sortedByEdges(g, result)
 //@   at before return#3 : exhibit[C06] fresh_order_is_sorted by(fresh_result_is_sorted): rk := pos :: sortedByEdges(g, resultCopy)
@@ -588,6 +696,8 @@ package graph
 //@     invariant counts_are_dependency_counts: forall k NodeKey :: (k in g.nodes) ==> depCounts[k] == len(g.nodes[k].Dependencies)
 //@     invariant queued: kahnQueue(g, queue, depCounts, enq, placed) && (forall k NodeKey :: !placed[k])
 //@     invariant queued_are_seen: forall k NodeKey :: enq[k] ==> seen[k]
+//@     invariant zero_queued: forall k NodeKey :: seen[k] && (k in g.nodes) && depCounts[k] == 0 ==> enq[k]
+//@     invariant queued_held: kahnQueuedHeld(queue, enq, placed, qi, QL, h)
 //@   loop 3
 //@     invariant queue_in_nodes: forall i int :: 0 <= i && i < len(queue) ==> (queue[i] in g.nodes)
 //@     invariant counts_for_nodes: forall k NodeKey :: (k in depCounts) <==> (k in g.nodes)
@@ -599,6 +709,9 @@ package graph
 //@     invariant placed_nodes: kahnPlaced(g, result, placed, pos)
 //@     invariant queued: kahnQueue(g, queue, depCounts, enq, placed)
 //@     invariant ordered: kahnOrdered(result, pos, placed)
+//@     invariant zero_queued: kahnZeroQueued(g, depCounts, enq)
+//@     invariant queued_held: kahnQueuedHeld(queue, enq, placed, qi, QL, h)
+//@     invariant all_discharged: forall c NodeKey, j int :: placed[c] && 0 <= j && j < len(g.nodes[c].Dependents) ==> P[g.nodes[c].Dependents[j]][m[c][j]]
 //@   loop 4
 //@     invariant queue_in_nodes: forall i int :: 0 <= i && i < len(queue) ==> (queue[i] in g.nodes)
 //@     invariant counts_for_nodes: forall k NodeKey :: (k in depCounts) <==> (k in g.nodes)
@@ -611,6 +724,9 @@ package graph
 //@     invariant discharged_for_current: kahnCurBelow(g, P, D, current, idx)
 //@     invariant placed_nodes: kahnPlaced(g, result, placed, pos)
 //@     invariant queued by(queued, dependent_not_yet_queued, entry_stands_for_an_occurrence): kahnQueue(g, queue, depCounts, enq, placed)
+//@     invariant zero_queued: kahnZeroQueued(g, depCounts, enq)
+//@     invariant queued_held: kahnQueuedHeld(queue, enq, placed, qi, QL, h)
+//@     invariant all_discharged: kahnAllDischarged(g, P, m, placed, current, idx)
 //
 //@ func NewDependencyGraphWithCapacity
 //@   ensures[C19,C05] empty_graph: result != nil && fresh(result) && wf(result) && cacheOK(result) && len(result.nodes) == 0 && (forall k NodeKey :: !(k in result.nodes) && !(k in result.edges))
